@@ -388,20 +388,36 @@ fn validate_nameserver_response(
 
         let mut rrs_for_query = Vec::<ResourceRecord>::with_capacity(response.answers.len());
         let mut seen_final_record = false;
-        let mut all_unknown = true;
+        let all_unknown = response.answers.iter().all(ResourceRecord::is_unknown);
+
+        // the `CNAME`s on the path from the query name to the final name, in
+        // path order - whatever order the nameserver sent them in, and
+        // ignoring any `CNAME` which is not on that path
+        let mut name = &question.name;
+        while *name != final_name {
+            let Some(next) = cname_map.get(name) else {
+                break;
+            };
+            for an in &response.answers {
+                if let RecordTypeWithData::CNAME { cname } = &an.rtype_with_data {
+                    if an.name == *name && cname == next && !an.is_unknown() {
+                        rrs_for_query.push(an.clone());
+                        break;
+                    }
+                }
+            }
+            name = next;
+        }
+
+        // then the records of the right type at the final name
         for an in &response.answers {
             if an.is_unknown() {
                 continue;
             }
 
-            let rtype = an.rtype_with_data.rtype();
-            all_unknown = false;
-
-            if rtype.matches(question.qtype) && an.name == final_name {
+            if an.rtype_with_data.rtype().matches(question.qtype) && an.name == final_name {
                 rrs_for_query.push(an.clone());
                 seen_final_record = true;
-            } else if rtype == RecordType::CNAME && cname_map.contains_key(&an.name) {
-                rrs_for_query.push(an.clone());
             }
         }
 
